@@ -115,6 +115,11 @@ func runC11(ctx *Ctx) {
 		}
 		rng := ctx.Sub(c)
 		peers := []string{"n2", "n3", "n4"}
+		if rng.Intn(2) == 0 {
+			// ids are opaque: a node registered under an unusual spelling is reported, tracked and
+			// expired under exactly that spelling
+			peers = append(peers, []string{"N5", "0xn6", "0XN7", "n8 "}[rng.Intn(4)])
+		}
 		var ops []*SOp
 		ops = append(ops, &SOp{Op: "SetNode", ID: "n1", Host: rng.Intn(4) == 0})
 		for _, p := range peers {
